@@ -231,7 +231,7 @@ def run(rep):
             pq.mentions(pat, lambda y: pq.call_named(y, "elem")) and not pq.mentions(pat, lambda y: pq.call_named(y, "py.enumerate"))
     flagged = [x for x in srch if len(x[2]) > 3 or (len(x) > 3 and dict(x[3]).get("flags") is not None)]
     rep.check(not flagged, "R19.d", rel, "OptionManager.search", "the pattern match carries no flag (case-insensitive or multi-line matching makes find() return options that are not equal)",
-              f"re.search called with {show(flagged[0][2][3])[:40] if flagged and len(flagged[0][2]) > 3 else 'flags='}" if flagged else "", line=sr.lineno)
+              f"re.search called with {show(flagged[0][2][3])[:40] if flagged and len(flagged[0][2]) > 3 else 'flags='}" if flagged else "", line=sr.lineno, firm=True)
     alls = any("all(" in ast.unparse(n) for n in ast.walk(sr) if isinstance(n, (ast.If, ast.IfExp, ast.Assign, ast.Return)))
     app = any(e.kind == 'call' and e.target.endswith(".append") and pq.mentions(e.val, lambda y: pq.call_named(y, "py.enumerate")) for p_ in list(spaths) + _loop_paths(pe) for e in p_.effects)
     rep.check(okse and alls and app, "R19.d", rel, "OptionManager.search", "a task is returned iff every criterion matches (re.search) the string form of its option", "", line=sr.lineno)
@@ -254,7 +254,7 @@ def run(rep):
                    if isinstance(t, ast.Attribute) and isinstance(t.value, ast.Name) and t.value.id == "self"}
         bad_ = sorted(a for a in mutated if a not in rebound)
         rep.check(not bad_, "R19.c", rel, cdef.name, f"{cdef.name}: containers that methods fill are created per instance in __init__",
-                  f"class-level {bad_} is one object shared by every instance: a second from_dict / round trip sees the tasks of the first", line=cdef.lineno)
+                  f"class-level {bad_} is one object shared by every instance: a second from_dict / round trip sees the tasks of the first", line=cdef.lineno, firm=True)
     return EXPLANATION
 
 
